@@ -11,11 +11,27 @@ Lemma src_range_from : forall (a : Z) (n : nat),
   src_range a (a + Z.of_nat n)%Z = map (fun k => (a + Z.of_nat k)%Z) (seq 0 n).
 Proof. intros a n. unfold src_range. replace (Z.to_nat (a + Z.of_nat n - a)) with n by lia. reflexivity. Qed.
 
+(* a list built by appending in a loop (one append per branch) is the comprehension *)
+Lemma fold_append_map2 : forall {A B} (g : A -> B) (l : list A) (acc : list B),
+  fold_left (fun acc x => acc ++ [g x]) l acc = acc ++ map g l.
+Proof.
+  intros A B g l. induction l as [|x l IH]; intros acc; cbn; [now rewrite app_nil_r|].
+  rewrite IH, <- app_assoc. reflexivity.
+Qed.
+Lemma fold_append_if : forall {A B} (c : A -> bool) (a b : A -> B) (l : list A) (acc : list B),
+  fold_left (fun acc x => if c x then acc ++ [a x] else acc ++ [b x]) l acc
+  = acc ++ map (fun x => if c x then a x else b x) l.
+Proof.
+  intros A B c a b l. induction l as [|x l IH]; intros acc; cbn; [now rewrite app_nil_r|].
+  rewrite IH. destruct (c x); rewrite <- app_assoc; reflexivity.
+Qed.
+
 Theorem src_axis_indices_agrees : forall (R C x y r : nat),
   src_axis_indices (Z.of_nat x) (Z.of_nat y) (Z.of_nat r) (Z.of_nat R) (Z.of_nat C)
   = (axis_indices R x r, axis_indices C y r).
 Proof.
-  intros R C x y r. cbv beta zeta delta [src_axis_indices axis_indices].
+  intros R C x y r. cbv beta zeta delta [src_axis_indices axis_indices]. autounfold with src_helpers. cbv beta zeta.
+  rewrite ?fold_append_if, ?fold_append_map2, ?app_nil_l.
   replace (Z.of_nat x + Z.of_nat r + 1)%Z with (Z.of_nat x - Z.of_nat r + Z.of_nat (2 * r + 1))%Z by lia.
   replace (Z.of_nat y + Z.of_nat r + 1)%Z with (Z.of_nat y - Z.of_nat r + Z.of_nat (2 * r + 1))%Z by lia.
   rewrite !src_range_from, !map_map.
@@ -140,14 +156,14 @@ End RowLoop.
 
 Theorem src_vn_mask_agrees : forall r : nat, src_vn_mask (Z.of_nat r) = Ok (vn_mask r).
 Proof.
-  intros r. cbv beta zeta delta [src_vn_mask].
+  intros r. cbv beta zeta delta [src_vn_mask]. autounfold with src_helpers. cbv beta zeta.
   replace (Z.to_nat (2 * Z.of_nat r + 1)) with (2 * r + 1) by lia.
   set (w := 2 * r + 1). rewrite repeat_length.
   assert (Hr : src_range 0 (Z.of_nat w) = map Z.of_nat (seq 0 w)).
   { unfold src_range. rewrite Z.sub_0_r, Nat2Z.id. apply map_ext. intros k. lia. }
   rewrite Hr. clear Hr.
   set (m := fun k : nat => if k <=? r then r - k else k - r).
-  match goal with |- bind (src_for ?F _ _) _ = _ =>
+  match goal with |- context [src_for ?F _ _] =>
     rewrite (row_loop F (fun k => fill2 (m k))) with (a := 0) (n := w) end.
   - cbn [bind firstn app]. f_equal. unfold vn_mask. apply map_ext_in. intros k Hk. apply in_seq in Hk.
     rewrite nth_repeat_in by lia. unfold vn_mask_row. fold w. unfold m.
